@@ -11,6 +11,8 @@ mod hist;
 mod c01;
 mod c03;
 mod c14;
+mod ser;
+mod c05;
 
 use report::{Coverage, Reporter, Tier};
 
@@ -56,6 +58,7 @@ fn main() {
             "C02" => c01::replay(&rep, case, "C02"),
             "C03" => c03::replay(&rep, case),
             "C14" => c14::replay(&rep, case),
+            "C05" => c05::replay(&rep, case),
             _ => usage(),
         }
         let code = rep.finish(Coverage::default());
@@ -67,6 +70,7 @@ fn main() {
         "C02" => c01::run_c02(&rep),
         "C03" => c03::run(&rep),
         "C14" => c14::run(&rep),
+        "C05" => c05::run(&rep),
         _ => usage(),
     };
     let code = rep.finish(cov);
